@@ -487,91 +487,123 @@ Definition zero_key : list N := repeat 0 16.
 Definition encryption_changed (c : cfg) (s : lstate_t) (changed : bool) : lstate_t :=
   if changed then push_event c s (EvChanged (details_of s)) else s.
 
-(* handle_ll_control_data( pdu, write ): lstate_t, items, result. The PDU has LLID 3 and size = length body > 0. *)
+(* The if-chain of handle_ll_control_data() (with handle_encryption_pdus() and handle_phy_request() that it falls
+   through to) tests nothing but opcode, size, version_indication_received_ and compile time options. [ctrl_kind]
+   is that chain; [handle_ll_control] does what the selected branch does. *)
+Inductive kind :=
+| KUpdate | KTerminate | KVersion | KChannelMap | KPing | KFeature | KUnknownRsp | KRejectInd | KRejectExt | KCpr
+| KEncReq | KStartEncRsp | KPauseEncReq | KPauseEncRsp | KPhyReq | KPhyUpdate
+| KUnknown        (* the final  else if ( opcode != LL_UNKNOWN_RSP ): answered with LL_UNKNOWN_RSP *)
+| KIgnore.        (* LL_UNKNOWN_RSP of a size other than 2: commit = false *)
+
+Definition ctrl_kind (c : cfg) (version_received : bool) (opcode size : N) : kind :=
+  if (opcode =? GenLL.LL_CONNECTION_UPDATE_IND) && (size =? 12) then KUpdate
+  else if (opcode =? GenLL.LL_TERMINATE_IND) && (size =? 2) then KTerminate
+  else if (opcode =? GenLL.LL_VERSION_IND) && (size =? 6) && negb version_received then KVersion
+  else if (opcode =? GenLL.LL_CHANNEL_MAP_REQ) && (size =? 8) then KChannelMap
+  else if (opcode =? GenLL.LL_PING_REQ) && (size =? 1) then KPing
+  else if (opcode =? GenLL.LL_FEATURE_REQ) && (size =? 9) then KFeature
+  else if (opcode =? GenLL.LL_UNKNOWN_RSP) && (size =? 2) then KUnknownRsp
+  else if (opcode =? GenLL.LL_REJECT_IND) && (size =? 2) then KRejectInd
+  else if (opcode =? GenLL.LL_REJECT_EXT_IND) && (size =? 3) then KRejectExt
+  else if (opcode =? GenLL.LL_CONNECTION_PARAM_REQ) && (size =? 24) then KCpr
+  (* handle_encryption_pdus *)
+  else if c_enc c && (opcode =? GenLL.LL_ENC_REQ) && (size =? 23) then KEncReq
+  else if c_enc c && (opcode =? GenLL.LL_START_ENC_RSP) && (size =? 1) then KStartEncRsp
+  else if c_enc c && (opcode =? GenLL.LL_PAUSE_ENC_REQ) && (size =? 1) then KPauseEncReq
+  else if c_enc c && (opcode =? GenLL.LL_PAUSE_ENC_RSP) && (size =? 1) then KPauseEncRsp
+  (* handle_phy_request *)
+  else if c_phy c && (opcode =? GenLL.LL_PHY_REQ) && (size =? 3) then KPhyReq
+  else if c_phy c && (opcode =? GenLL.LL_PHY_UPDATE_IND) && (size =? 5) then KPhyUpdate
+  else if negb (opcode =? GenLL.LL_UNKNOWN_RSP) then KUnknown
+  else KIgnore.
+
+Definition clear_cpr_feature (s : lstate_t) : lstate_t :=
+  set_used_features s (N.land (used_features s) (65535 - GenLL.feature_connection_parameters_request_procedure)).
+
+Definition version_ind_pdu : list N :=
+  [GenLL.LL_VERSION_IND; GenLL.LL_VERSION_NR; lo8 GenLL.company_identifier; hi8 GenLL.company_identifier; 0; 0].
+
+(* the shared branch for LL_UNKNOWN_RSP / LL_REJECT_IND / LL_REJECT_EXT_IND *)
+Definition handle_reject (c : cfg) (s : lstate_t) (opcode : N) (body : list N) : lstate_t :=
+  let contains_request := (opcode =? GenLL.LL_UNKNOWN_RSP) || (opcode =? GenLL.LL_REJECT_EXT_IND) in
+  let s1 :=
+    if negb contains_request || (byte body 1 =? GenLL.LL_CONNECTION_PARAM_REQ) then
+      let s1 := set_proc_timeout s 0 in
+      (* signaling_channel_t::connection_parameter_update_request(): no_signaling_channel returns false *)
+      let s2 := if cpr_running (pr s1) && cpr_sig (pr s1)
+                then upd_pr s1 (fun p => set_cpr_running (set_cpr_sig p false) false) else s1 in
+      if opcode =? GenLL.LL_UNKNOWN_RSP then clear_cpr_feature s2 else s2
+    else s in
+  if negb (opcode =? GenLL.LL_UNKNOWN_RSP)
+  then push_event c s1 (EvRejected (if opcode =? GenLL.LL_REJECT_IND then byte body 1 else byte body 2))
+  else push_event c s1 (EvUnknown (byte body 1)).
+
+(* handle_ll_control_data( pdu, write ): state, items, result. The PDU has LLID 3 and size = length body > 0. *)
 Definition handle_ll_control (c : cfg) (s : lstate_t) (body : list N) : lstate_t * list item * ll_result :=
   let size := N.of_nat (length body) in
   let opcode := if 0 <? size then byte body 0 else 255 in
   let evc := evc (cs s) in
-  if (opcode =? GenLL.LL_CONNECTION_UPDATE_IND) && (size =? 12) then
-    let inst := rd16 body 10 in
-    let s1 := set_def_instant s inst in
-    if instant_passed_update inst evc
-    then (set_disc_reason s1 GenLL.connection_instant_passed, [], DoDisconnect)
-    else (set_deferred s1 (Some body), [], GoAhead)
-  else if (opcode =? GenLL.LL_TERMINATE_IND) && (size =? 2) then
-    (set_disc_reason s (byte body 1), [], DoDisconnect)
-  else if (opcode =? GenLL.LL_VERSION_IND) && (size =? 6) && negb (ver_received (pr s)) then
-    let s1 := set_proc_timeout s 0 in
-    let s2 := if byte body 1 <=? GenLL.LL_VERSION_40
-              then set_used_features s1 (N.land (used_features s1) (65535 - GenLL.feature_connection_parameters_request_procedure))
-              else s1 in
-    let s3 := push_event c s2 (EvVersion (byte body 1) (rd16 body 2) (rd16 body 4)) in
-    let s4 := upd_pr s3 (fun p => set_ver_received p true) in
-    (commit_ctrl s4 [GenLL.LL_VERSION_IND; GenLL.LL_VERSION_NR; lo8 GenLL.company_identifier; hi8 GenLL.company_identifier; 0; 0], [], GoAhead)
-  else if (opcode =? GenLL.LL_CHANNEL_MAP_REQ) && (size =? 8) then
-    let inst := rd16 body 6 in
-    let s1 := set_def_instant s inst in
-    if instant_passed_map inst evc
-    then (set_disc_reason s1 GenLL.connection_instant_passed, [], DoDisconnect)
-    else (set_deferred s1 (Some body), [], GoAhead)
-  else if (opcode =? GenLL.LL_PING_REQ) && (size =? 1) then
-    (commit_ctrl s [GenLL.LL_PING_RSP], [], GoAhead)
-  else if (opcode =? GenLL.LL_FEATURE_REQ) && (size =? 9) then
-    let s1 := set_used_features s (N.land (used_features s) (rd16 body 1)) in
-    let s2 := push_event c s1 (EvFeatures (slice body 1 8)) in
-    (commit_ctrl s2 [GenLL.LL_FEATURE_RSP; lo8 (used_features s1); hi8 (supported_features c); 0; 0; 0; 0; 0; 0], [], GoAhead)
-  else if ((opcode =? GenLL.LL_UNKNOWN_RSP) && (size =? 2)) || ((opcode =? GenLL.LL_REJECT_IND) && (size =? 2))
-          || ((opcode =? GenLL.LL_REJECT_EXT_IND) && (size =? 3)) then
-    let contains_request := (opcode =? GenLL.LL_UNKNOWN_RSP) || (opcode =? GenLL.LL_REJECT_EXT_IND) in
-    let s1 :=
-      if negb contains_request || (byte body 1 =? GenLL.LL_CONNECTION_PARAM_REQ) then
-        let s1 := set_proc_timeout s 0 in
-        (* signaling_channel_t::connection_parameter_update_request(): no_signaling_channel returns false *)
-        let s2 := if cpr_running (pr s1) && cpr_sig (pr s1)
-                  then upd_pr s1 (fun p => set_cpr_running (set_cpr_sig p false) false) else s1 in
-        if opcode =? GenLL.LL_UNKNOWN_RSP
-        then set_used_features s2 (N.land (used_features s2) (65535 - GenLL.feature_connection_parameters_request_procedure))
-        else s2
-      else s in
-    let s2 := if negb (opcode =? GenLL.LL_UNKNOWN_RSP)
-              then push_event c s1 (EvRejected (if opcode =? GenLL.LL_REJECT_IND then byte body 1 else byte body 2))
-              else push_event c s1 (EvUnknown (byte body 1)) in
-    (s2, [], GoAhead)
-  else if (opcode =? GenLL.LL_CONNECTION_PARAM_REQ) && (size =? 24) then
-    let '(rsp, it) := handle_cpr c s body in
-    (match rsp with Some r => commit_ctrl s r | None => s end, it, GoAhead)
-  (* handle_encryption_pdus *)
-  else if c_enc c && (opcode =? GenLL.LL_ENC_REQ) && (size =? 23) then
-    let known := key_known (sc s) in
-    let s1 := upd_sc s (fun x => set_has_key (set_enc_prog x true) known) in
-    (commit_ctrl s1 (GenLL.LL_ENC_RSP :: skds_bytes ++ ivs_bytes),
-     [IFindKey (rd16 body 9) (rd64 body 1); ISetup (if known then toy_key else zero_key) (rd64 body 11) (rd32 body 19)], GoAhead)
-  else if c_enc c && (opcode =? GenLL.LL_START_ENC_RSP) && (size =? 1) then
-    (* defect #24: no check that LL_START_ENC_REQ was sent *)
-    let changed := negb (is_enc (sc s)) in
-    let s1 := upd_sc s (fun x => set_is_enc x true) in
-    let s2 := encryption_changed c s1 changed in
-    (commit_ctrl s2 [GenLL.LL_START_ENC_RSP], [IEncTx true], GoAhead)
-  else if c_enc c && (opcode =? GenLL.LL_PAUSE_ENC_REQ) && (size =? 1) then
-    let changed := is_enc (sc s) in
-    let s1 := upd_sc s (fun x => set_is_enc x false) in
-    let s2 := encryption_changed c s1 changed in
-    (commit_ctrl s2 [GenLL.LL_PAUSE_ENC_RSP], [IEncRx false], GoAhead)
-  else if c_enc c && (opcode =? GenLL.LL_PAUSE_ENC_RSP) && (size =? 1) then
-    let changed := is_enc (sc s) in
-    let s1 := upd_sc s (fun x => set_is_enc x false) in
-    (encryption_changed c s1 changed, [IEncTx false], GoAhead)
-  (* handle_phy_request *)
-  else if c_phy c && (opcode =? GenLL.LL_PHY_REQ) && (size =? 3) then
-    (commit_ctrl s [GenLL.LL_PHY_RSP; 3; 3], [], GoAhead)
-  else if c_phy c && (opcode =? GenLL.LL_PHY_UPDATE_IND) && (size =? 5)
-          && valid_phy_encoding (byte body 1) && valid_phy_encoding (byte body 2) then
-    if (byte body 1 =? 0) && (byte body 2 =? 0)
-    then (push_event c s (EvPhy 0 0), [], GoAhead)
-    else (set_def_instant (set_deferred s (Some body)) (rd16 body 3), [], GoAhead)   (* defect #18: no instant check *)
-  else if negb (opcode =? GenLL.LL_UNKNOWN_RSP) then
-    (commit_ctrl s [GenLL.LL_UNKNOWN_RSP; opcode], [], GoAhead)
-  else (s, [], GoAhead).
+  match ctrl_kind c (ver_received (pr s)) opcode size with
+  | KUpdate =>
+      let inst := rd16 body 10 in
+      let s1 := set_def_instant s inst in
+      if instant_passed_update inst evc
+      then (set_disc_reason s1 GenLL.connection_instant_passed, [], DoDisconnect)
+      else (set_deferred s1 (Some body), [], GoAhead)
+  | KTerminate => (set_disc_reason s (byte body 1), [], DoDisconnect)
+  | KVersion =>
+      let s1 := set_proc_timeout s 0 in
+      let s2 := if byte body 1 <=? GenLL.LL_VERSION_40 then clear_cpr_feature s1 else s1 in
+      let s3 := push_event c s2 (EvVersion (byte body 1) (rd16 body 2) (rd16 body 4)) in
+      let s4 := upd_pr s3 (fun p => set_ver_received p true) in
+      (commit_ctrl s4 version_ind_pdu, [], GoAhead)
+  | KChannelMap =>
+      let inst := rd16 body 6 in
+      let s1 := set_def_instant s inst in
+      if instant_passed_map inst evc
+      then (set_disc_reason s1 GenLL.connection_instant_passed, [], DoDisconnect)
+      else (set_deferred s1 (Some body), [], GoAhead)
+  | KPing => (commit_ctrl s [GenLL.LL_PING_RSP], [], GoAhead)
+  | KFeature =>
+      let s1 := set_used_features s (N.land (used_features s) (rd16 body 1)) in
+      let s2 := push_event c s1 (EvFeatures (slice body 1 8)) in
+      (commit_ctrl s2 [GenLL.LL_FEATURE_RSP; lo8 (used_features s1); hi8 (supported_features c); 0; 0; 0; 0; 0; 0], [], GoAhead)
+  | KUnknownRsp | KRejectInd | KRejectExt => (handle_reject c s opcode body, [], GoAhead)
+  | KCpr =>
+      let '(rsp, it) := handle_cpr c s body in
+      (match rsp with Some r => commit_ctrl s r | None => s end, it, GoAhead)
+  | KEncReq =>
+      let known := key_known (sc s) in
+      let s1 := upd_sc s (fun x => set_has_key (set_enc_prog x true) known) in
+      (commit_ctrl s1 (GenLL.LL_ENC_RSP :: skds_bytes ++ ivs_bytes),
+       [IFindKey (rd16 body 9) (rd64 body 1); ISetup (if known then toy_key else zero_key) (rd64 body 11) (rd32 body 19)], GoAhead)
+  | KStartEncRsp =>
+      (* defect #24: no check that LL_START_ENC_REQ was sent *)
+      let changed := negb (is_enc (sc s)) in
+      let s1 := upd_sc s (fun x => set_is_enc x true) in
+      let s2 := encryption_changed c s1 changed in
+      (commit_ctrl s2 [GenLL.LL_START_ENC_RSP], [IEncTx true], GoAhead)
+  | KPauseEncReq =>
+      let changed := is_enc (sc s) in
+      let s1 := upd_sc s (fun x => set_is_enc x false) in
+      let s2 := encryption_changed c s1 changed in
+      (commit_ctrl s2 [GenLL.LL_PAUSE_ENC_RSP], [IEncRx false], GoAhead)
+  | KPauseEncRsp =>
+      let changed := is_enc (sc s) in
+      let s1 := upd_sc s (fun x => set_is_enc x false) in
+      (encryption_changed c s1 changed, [IEncTx false], GoAhead)
+  | KPhyReq => (commit_ctrl s [GenLL.LL_PHY_RSP; 3; 3], [], GoAhead)
+  | KPhyUpdate =>
+      if valid_phy_encoding (byte body 1) && valid_phy_encoding (byte body 2) then
+        if (byte body 1 =? 0) && (byte body 2 =? 0)
+        then (push_event c s (EvPhy 0 0), [], GoAhead)
+        else (set_def_instant (set_deferred s (Some body)) (rd16 body 3), [], GoAhead)   (* defect #18: no instant check *)
+      else (* handle_phy_request() returns false: the chain goes on to the final else-if *)
+        (commit_ctrl s [GenLL.LL_UNKNOWN_RSP; opcode], [], GoAhead)
+  | KUnknown => (commit_ctrl s [GenLL.LL_UNKNOWN_RSP; opcode], [], GoAhead)
+  | KIgnore => (s, [], GoAhead)
+  end.
 
 (* handle_pending_ll_control( connection_event_counter() ) *)
 Definition handle_pending_ll_control (c : cfg) (s : lstate_t) : option (lstate_t * list item * ll_result) :=
@@ -670,7 +702,7 @@ Definition transmit_pending_control_pdus (c : cfg) (s : lstate_t) : lstate_t :=
   else if ver_pending p then
     let s1 := set_proc_timeout s GenLL.default_procedure_timeout_us in
     let s2 := upd_pr s1 (fun q => set_ver_pending q false) in
-    commit_ctrl s2 [GenLL.LL_VERSION_IND; GenLL.LL_VERSION_NR; lo8 GenLL.company_identifier; hi8 GenLL.company_identifier; 0; 0]
+    commit_ctrl s2 version_ind_pdu
   else
     let a := ac s in
     let s1 := upd_ac s (fun x => set_ap_pending x false) in
